@@ -396,7 +396,20 @@ func (store *KeyBackuper) Import(backup *keystore.KeysBackup) ([]keystore.KeyDes
 			return nil, err
 		}
 
-		if err := store.storage.WriteFile(fullName, content, filePermission); err != nil {
+		// Write the key the way KeyStore.WriteKeyFile does: into a temporary file next to the target which
+		// is then renamed over it. A crash or a failed write in the middle of an import therefore never
+		// leaves a partially written file under the name of a key (a truncated key file does not decrypt,
+		// and the next rotation would move it into the key's history).
+		tmpFilename, err := store.storage.TempFile(fullName, filePermission)
+		if err != nil {
+			return nil, err
+		}
+		if err := store.storage.WriteFile(tmpFilename, content, filePermission); err != nil {
+			store.removeTemporary(tmpFilename)
+			return nil, err
+		}
+		if err := store.storage.Rename(tmpFilename, fullName); err != nil {
+			store.removeTemporary(tmpFilename)
 			return nil, err
 		}
 
@@ -407,6 +420,14 @@ func (store *KeyBackuper) Import(backup *keystore.KeysBackup) ([]keystore.KeyDes
 		descriptions = append(descriptions, *description)
 	}
 	return descriptions, nil
+}
+
+// removeTemporary removes the temporary file of an interrupted import: anything unexpected in the key
+// directory breaks key listing.
+func (store *KeyBackuper) removeTemporary(path string) {
+	if err := store.storage.Remove(path); err != nil {
+		log.WithError(err).WithField("path", path).Warningln("Can't remove temporary key file")
+	}
 }
 
 func verifyPublicKey(pubKey *keys.PublicKey) error {
